@@ -368,10 +368,10 @@ func invariants(sc *core.Scenario, o *outcome, faults []simos.Fault) *core.Viola
 		}
 		return m
 	}
-	if o.hostPanic != "" {
-		return &core.Violation{Oracle: "host-panic", Signature: "host-panic", Expected: "the command does not crash the Go runtime",
-			Observed: obs(map[string]any{"panic": o.hostPanic}), Match: map[string]string{"oracle": "host-panic"}}
-	}
+	// A Go panic inside the command (today: the parser's internal "incompatible
+	// types" panic on some inputs, which is C03's pure-input territory) ends the
+	// real process with a stack trace and status 2. For THIS property that is a
+	// process that died with a non-zero status: the file invariants below apply.
 	allFormatted, anyUnparsable := true, false
 	for i, f := range sc.Files {
 		st := o.files[i]
@@ -536,6 +536,9 @@ func (d *D) RunItem(idx int, ctx *core.Ctx) {
 	base := d.execute(sc, nil)
 	ctx.Inc("evaluations", 1)
 	ctx.Inc("scenarios", 1)
+	if base.hostPanic != "" {
+		ctx.Inc("command_died_with_go_panic(parser crash, C03 territory)", 1)
+	}
 	ctx.Inc("mode:"+strings.Join(sc.Argv[1:min(2, len(sc.Argv))], ""), 1)
 	if v := invariants(sc, base, nil); v != nil {
 		ctx.Violate(sc, v)
@@ -629,6 +632,9 @@ func (d *D) RunItem(idx int, ctx *core.Ctx) {
 }
 
 func (d *D) account(ctx *core.Ctx, o *outcome) {
+	if o.hostPanic != "" {
+		ctx.Inc("command_died_with_go_panic(parser crash, C03 territory)", 1)
+	}
 	keys := make([]string, 0, len(o.fired))
 	for k := range o.fired { // sorted before use
 		keys = append(keys, k)
